@@ -243,6 +243,11 @@ class CEvent:
 
     isSet = is_set
 
+    def _at_fork_reinit(self):
+        # threading._after_fork re-initialises the `_started` event of every Thread object in a forked child (the C19 check
+        # computes CPython's regex answers in a forked child under a time limit); nothing to do for a controlled event
+        pass
+
     def set(self):
         s = _CURRENT
         if s:
